@@ -146,6 +146,14 @@ func runC10(p *Prog, r *Result) {
 		for i := 0; i < pst.NumFields(); i++ {
 			isParserField[pst.Field(i)] = true
 		}
+		// the reader wrapper of InteractiveSeq keeps parser-side bookkeeping too
+		if wr := lookupType(pkg, "wrappedReader"); wr != nil {
+			if wst, ok := wr.Underlying().(*types.Struct); ok {
+				for i := 0; i < wst.NumFields(); i++ {
+					isParserField[wst.Field(i)] = true
+				}
+			}
+		}
 		checkTruncationAliasing(p, r, pkg, "syntax", "R10f", func(fv *types.Var) bool { return isParserField[fv] })
 	}
 
@@ -254,6 +262,8 @@ func checkCountersRule(p *Prog, r *Result, pkg interface{ }, rule string) {
 }
 
 var c10Controls = []Control{
+	{Name: "yielded-slice-truncated-in-place", Rule: "R10f", WantKey: "InteractiveSeq#w.accumulated truncated", File: "syntax/parser.go",
+		Mutate: ctlReplaceAnywhere("\t\t\t\tw.accumulated = nil\n", "\t\t\t\tw.accumulated = w.accumulated[:0]\n")},
 	{Name: "quoted-heredoc-eof-keeps-old-token", Rule: "R10g", WantKey: "quotedHdocWord#end-of-input exit", File: "syntax/lexer.go",
 		Mutate: ctlReplaceAnywhere("\t\t\tp.tok = _EOF\n\t\t\treturn nil\n\t\t}\n\t\tfor p.quote == hdocBodyTabs && r == '\\t' {", "\t\t\treturn nil\n\t\t}\n\t\tfor p.quote == hdocBodyTabs && r == '\\t' {")},
 	{Name: "parameter-name-eof-keeps-old-token", Rule: "R10g", WantKey: "paramExpParameter#end-of-input exit", File: "syntax/parser.go",
